@@ -454,6 +454,8 @@ def run_c04(c):
     add("c:warping_paths_fast[int,noneg]",
         lambda: dtw.warping_paths_fast(a, b, psi_neg=False, keep_int_repr=True, **kw), False, True)
     add("c:warping_paths[use_c]", lambda: dtw.warping_paths(a, b, use_c=True, **kw), True, False)
+    add("c:warping_paths[use_c,int]", lambda: dtw.warping_paths(a, b, use_c=True, keep_int_repr=True, **kw),
+        True, True)
     sls = pick_slices(c, c["id"])
     slices = []
     r = guarded(lambda: _native_wps(c, True, False, sls))
@@ -470,3 +472,117 @@ def run_c04(c):
             slices.append({"route": "native:expand_slice[%d:%d,%d:%d]" % (rb, re, cb, ce), "r": [rb, re, cb, ce],
                            "neg": True, "mat": enc_matrix(c, sm, False)})
     return {"id": c["id"], "routes": routes, "mat": mats, "d": ds, "neg": negs, "slices": slices}
+
+
+# ---------------------------------------------------------------------------------------------
+# C05: every route that reports a warping path
+def enc_path(p):
+    try:
+        return [[int(a), int(b)] for (a, b) in p]
+    except Exception:
+        return [[-1, -1]]
+
+
+def _native_path(c, customstart=None):
+    from . import native
+    lib = native.lib("plain")
+    nd = ndim_of(c)
+    l1, l2 = len(c["s1"]), len(c["s2"])
+    a = native.flat_series(c, "s1")
+    b = native.flat_series(c, "s2")
+    A = native.Buf(len(a), fill=a)
+    B = native.Buf(len(b), fill=b)
+    I1 = native.Buf(l1 + l2, native.idx_t, fill=-7)
+    I2 = native.Buf(l1 + l2, native.idx_t, fill=-7)
+    import ctypes
+    n = native.idx_t(0)
+    st = lib.settings(c)
+    try:
+        d = lib.L.dtw_warping_path_ndim(A.ptr, l1, B.ptr, l2, I1.ptr, I2.ptr, ctypes.byref(n), nd, st)
+        for x in (A, B, I1, I2):
+            x.check("path")
+        k = n.value
+        if k < 0 or k > l1 + l2:
+            return d, [[-1, -1]]
+        p = [(I1.arr[i], I2.arr[i]) for i in range(k)]
+        p.reverse()
+        return d, p
+    finally:
+        for x in (A, B, I1, I2):
+            x.free()
+
+
+def run_c05(c):
+    from dtaidistance import dtw, dtw_cc, dtw_ndim
+    nd = ndim_of(c)
+    use_ndim = nd > 1
+    kw = settings(c)
+    a, b = series(c, "s1", "numpy"), series(c, "s2", "numpy")
+    routes, paths, ds = [], [], []
+
+    def add(name, fn, with_d=False):
+        routes.append(name)
+        r = guarded(fn)
+        if isinstance(r, tuple) and len(r) == 2 and r[0] == "raised":
+            paths.append([[-3, -3]])
+            ds.append(ABSENT)
+            return
+        if with_d:
+            p, d = r
+            ds.append(enc_cost(c, d))
+        else:
+            p = r
+            ds.append(ABSENT)
+        paths.append(enc_path(p))
+
+    def bp_py():
+        d, m = dtw.warping_paths(a, b, **kw)
+        return dtw.best_path(m), d
+
+    def bp_py_int():
+        s = dtw.DTWSettings(**kw)
+        d, m = dtw.warping_paths(a, b, keep_int_repr=True, **kw)
+        return dtw.best_path(m, penalty=s.adj_penalty)
+
+    def bp_c():
+        d, m = dtw.warping_paths_fast(a, b, **kw)
+        return dtw.best_path(m), d
+
+    def bp2():
+        d, m = dtw.warping_paths(a, b, **kw)
+        return dtw.best_path2(m)
+
+    def bp_c_int():
+        s = dtw.DTWSettings(**kw)
+        d, m = dtw.warping_paths_fast(a, b, keep_int_repr=True, **kw)
+        return dtw.best_path(m, penalty=s.adj_penalty)
+
+    if c["pen"] == 0:
+        # best_path without its penalty argument and best_path2 are only specified for penalty-free matrices
+        add("py:best_path(warping_paths)", bp_py, True)
+        add("py:best_path(warping_paths_fast)", bp_c, True)
+        add("py:best_path2", bp2)
+    add("py:best_path(int repr, penalty)", bp_py_int)
+    add("py:best_path(C int repr, penalty)", bp_c_int)
+    add("py:warping_path", lambda: dtw.warping_path(a, b, include_distance=True, **kw), True)
+    if use_ndim:
+        kwn = {k: v for k, v in kw.items() if k != "use_ndim"}
+        add("py:dtw_ndim.warping_path", lambda: dtw_ndim.warping_path(a, b, **kwn))
+        kwz = settings(c, none_as_zero=True)
+        kwz.pop("use_ndim", None)
+        add("c:dtw_cc.warping_path_ndim",
+            lambda: dtw_cc.warping_path_ndim(a, b, nd, include_distance=True, **kwz), True)
+    else:
+        kwf = {k: v for k, v in kw.items() if k in ("window", "max_dist", "max_step", "max_length_diff", "penalty", "psi")}
+        if c["inner"] == "sq":
+            add("c:warping_path_fast", lambda: dtw.warping_path_fast(a, b, include_distance=True, **kwf), True)
+
+        def bpc():
+            d, m = dtw.warping_paths_fast(a, b, compact=True, keep_int_repr=True, **kw)
+            s = dtw.DTWSettings.for_dtw(a, b, **kw)
+            return dtw_cc.best_path_compact(m, len(a), len(b), **s.c_kwargs())
+        add("c:best_path_compact", bpc)
+        if not any(c["psi"]):
+            add("py:warp", lambda: dtw.warp(a, b, **kw)[1])   # warp needs every index of to_s aligned
+    add("native:dtw_warping_path", lambda: tuple(reversed(_native_path(c))), True)
+    return {"id": c["id"], "routes": routes, "paths": paths, "d": ds}
